@@ -161,15 +161,28 @@ def run_one(ctx, case):
         for i, e in enumerate(elems):
             cont[i] = e
         cont = cont.reshape(outer)
-        y = UTPM.as_utpm(cont)
-        for n, idx in enumerate(np.ndindex(*outer)):
-            if not np.array_equal(y[idx].data, elems[n].data):
-                return 'as_utpm: (as_utpm xs)[%s] != xs[%s]' % (idx, idx)
-        if x.ndim == 3:   # scalar elements: ndarray2utpm too
-            y2 = utils.ndarray2utpm(cont)
-            for n, idx in enumerate(np.ndindex(*outer)):
-                if not np.array_equal(y2[idx].data, elems[n].data):
-                    return 'ndarray2utpm: element %s differs' % (idx,)
+        # the same container in several memory layouts (C order, Fortran order, a transposed view of the transposed
+        # container, a strided view) and as nested lists
+        layouts = [('C', cont), ('F', np.asfortranarray(cont))]
+        if cont.ndim == 2:
+            layouts.append(('T-view', np.ascontiguousarray(cont.T).T))
+            big = np.empty((outer[0], 2 * outer[1]), dtype=object)
+            big[:, ::2] = cont
+            layouts.append(('strided', big[:, ::2]))
+        for lname, c_ in layouts:
+            y = UTPM.as_utpm(c_)
+            for idx in np.ndindex(*outer):
+                if not np.array_equal(y[idx].data, c_[idx].data):
+                    return 'as_utpm-%s: (as_utpm xs)[%s] != xs[%s] for a container in layout %s' % (lname, idx, idx, lname)
+            if x.ndim == 3:   # scalar elements: ndarray2utpm too
+                y2 = utils.ndarray2utpm(c_)
+                for idx in np.ndindex(*outer):
+                    if not np.array_equal(y2[idx].data, c_[idx].data):
+                        return 'ndarray2utpm-%s: element %s differs' % (lname, idx)
+        y3 = UTPM.as_utpm(cont.tolist())
+        for idx in np.ndindex(*outer):
+            if not np.array_equal(y3[idx].data, cont[idx].data):
+                return 'as_utpm-list: (as_utpm nested list)[%s] != xs[%s]' % (idx, idx)
         return None
     if k == 'combine':
         B = [[UTPM(np.array(b)) for b in row] for row in case['blocks']]
